@@ -11,7 +11,12 @@ One model step = one mutex-protected section (or one unlocked poller statement) 
                                       the poller runs `c.flush()` for the EPOLLOUT part
 * `evEnd`                           — what the poller does after the read part: `ResetPollerEvent`
                                       (ONESHOT) and `closeWithError(io.EOF)` for an error event
-* `close`                           — `closeWithError` (flip under the mutex + teardown)
+* `flipClosed`                      — the locked part of `closeWithError` (test-and-set `closed`, stop the timers)
+* `teardown`                        — `closeWithErrorWithoutLock`, run after the unlock by the flipper only; the
+                                      fatal-error branches of Write / Writev leave it pending too, those of
+                                      flush / Sendfile run it inside their critical section (`closeNow`)
+* `setWriteDeadline`, `timerExpire`, `timerFire` — SetWriteDeadline; the runtime starts the timer's
+                                      goroutine; it takes the mutex in `closeWithError(errWriteTimeout)`
 
 Between `evTake` and `evEnd` other steps may occur (writes from the data callback or from other
 goroutines). Kernel answers are explicit inputs; an exhausted answer script means EAGAIN. A
@@ -70,6 +75,18 @@ structure S where
   -- DialAsync: `c.onConnected != nil` (connect in progress) / the poller is running that callback
   connecting : Bool := false
   connEv : Bool := false
+  -- write deadline: `c.wTimer != nil` / the timer has expired and its goroutine has not yet taken the mutex
+  wTimer : Bool := false
+  firePending : Bool := false
+  -- close: the flag is flipped and the flipper has still to run closeWithErrorWithoutLock / it has closed the fd
+  tearPending : Bool := false
+  fdClosed : Bool := false
+  -- ghosts of the kernel's edge-triggered reporting (maintained by `step`, never read by the code paths):
+  -- a writability report is due (EPOLL_CTL_ADD reports the current readiness; later the kernel reports
+  -- EPOLLOUT again only after it refused or shortened a write) / a call ran on a conn whose async connect had
+  -- not yet reached its connected callback (impossible through the API: the conn is handed out by that callback)
+  edgeDue : Bool := false
+  early : Bool := false
   -- kernel side
   reg : Bool := false         -- fd registered with epoll
   kOut : Bool := false        -- EPOLLOUT in the registered interest set
@@ -129,8 +146,23 @@ def cResetRead (g : Cfg) (s : S) : S :=
 def resetPollerEvent (g : Cfg) (s : S) : S :=
   if g.mode == .oneshot && !s.closed then (if s.wl.isEmpty then pResetRead g s else pModWrite g s) else s
 
-/-- closeWithErrorWithoutLock after `closed = true`: release the queue, notify, close the fd -/
-def closeNow (s : S) : S := { s with closed := true, wl := [], onClose := s.onClose + 1 }
+/-- `c.closed = true` under the mutex: the caller (only it) will run closeWithErrorWithoutLock. The
+    fatal-error branches of Write / Writev do exactly this before they unlock (no timer is stopped). -/
+def flip (s : S) : S := { s with closed := true, tearPending := true }
+
+/-- closeWithErrorWithoutLock, run by the flipper: release the queue, notify (table slot, OnClose), close the fd -/
+def teardown (s : S) : S :=
+  if s.tearPending then { s with wl := [], onClose := s.onClose + 1, fdClosed := true, tearPending := false } else s
+
+/-- flip and teardown in one critical section: the fatal-error branches of flush and Sendfile call
+    closeWithErrorWithoutLock while they still hold the mutex (deferred unlock) -/
+def closeNow (s : S) : S := { s with closed := true, wl := [], onClose := s.onClose + 1, fdClosed := true }
+
+/-- `if c.wTimer != nil { c.wTimer.Stop(); c.wTimer = nil }` -/
+def stopTimer (s : S) : S := { s with wTimer := false }
+
+/-- the locked part of closeWithError on an open conn: flag, stop the timers (teardown follows the unlock) -/
+def flipWE (s : S) : S := flip (stopTimer s)
 
 def overflow (g : Cfg) (s : S) (n : Nat) : Bool := g.maxWB > 0 && s.left + n > g.maxWB
 
@@ -150,10 +182,11 @@ def writeInner (g : Cfg) (s : S) (b : Bytes) (k : KAns) : S × Ret :=
       if b.length - n > 0 then (enqueue s (b.drop n), ⟨b.length, .none⟩) else (s, ⟨b.length, .none⟩)
   else (enqueue { s with accepted := s.accepted ++ b } b, ⟨b.length, .none⟩)
 
-/-- the tail of Write / Writev: fatal error ⇒ close; backlog ⇒ arm EPOLLOUT -/
+/-- the tail of Write / Writev: fatal error ⇒ close; nothing left to write ⇒ clear the write deadline;
+    backlog ⇒ arm EPOLLOUT -/
 def finishCall (g : Cfg) (r : S × Ret) : S × Ret :=
-  if r.2.err = .none then ((if r.1.wl.isEmpty then r.1 else cModWrite g r.1), r.2)
-  else (closeNow r.1, r.2)
+  if r.2.err = .none then ((if r.1.wl.isEmpty then stopTimer r.1 else cModWrite g r.1), r.2)
+  else (flip r.1, r.2)
 
 def write (g : Cfg) (s : S) (b : Bytes) (k : KAns) : S × Ret :=
   if s.hung then (s, ⟨0, .none⟩)
@@ -230,7 +263,7 @@ def flushLoop (g : Cfg) : Nat → S → List KAns → S
   | 0, s, _ => { s with hung := true }
   | fuel + 1, s, ks =>
     match s.wl with
-    | [] => cResetRead g s
+    | [] => cResetRead g (stopTimer s)                       -- drained: clear the write deadline, resetRead
     | .buf d off :: tl =>
       let rest := d.drop off
       if rest.length = 0 then flushLoop g fuel s ks        -- write(fd, "", 0) = 0: nothing changes, loop again
@@ -300,31 +333,150 @@ def evEnd (g : Cfg) (s : S) : S :=
   -- after the connected callback: `c.onConnected = nil; c.resetRead()` under the mutex
   let s := if s.connEv then cResetRead g { s with connecting := false, connEv := false } else s
   let s := if s.rearm then resetPollerEvent g { s with rearm := false } else s
-  if s.evErr then (if s.closed then { s with evErr := false } else closeNow { s with evErr := false }) else s
+  if s.evErr then (if s.closed then { s with evErr := false } else flipWE { s with evErr := false }) else s
 
-def close (s : S) : S := if s.hung || s.closed then s else closeNow s
+/-- Close / CloseWithError: the locked part of closeWithError -/
+def flipClosed (s : S) : S := if s.hung || s.closed then s else flipWE s
+
+/-! ## write deadline -/
+
+/-- SetWriteDeadline: zero time clears, anything else arms (AfterFunc) or re-arms (Reset) -/
+def setWriteDeadline (s : S) (zero : Bool) : S :=
+  if s.hung || s.closed then s else { s with wTimer := !zero }
+
+/-- the runtime fires the timer (only a timer that is set and was not stopped): its goroutine starts -/
+def timerExpire (s : S) : S := if s.wTimer then { s with firePending := true } else s
+
+/-- the timer goroutine gets the mutex: closeWithError(errWriteTimeout) -/
+def timerFire (s : S) : S :=
+  if !s.firePending || s.hung then s
+  else if s.closed then { s with firePending := false } else flipWE { s with firePending := false }
 
 /-! ## transition system -/
 
+/-! ## the kernel's edge-triggered reporting (ghost) -/
+
+/-- the answer the direct write of Write / Writev ends with: interrupted attempts (EINTR) are retried;
+    an exhausted script means EAGAIN -/
+def directAns : List KAns → KAns
+  | [] => .eagain
+  | .eintr :: ks => directAns ks
+  | k :: _ => k
+
+/-- the kernel refused (part of) a request of `len` bytes: EAGAIN or a short count. The socket buffer is
+    full then, so a writability report will follow. -/
+def refused (k : KAns) (len : Nat) : Bool :=
+  match k with
+  | .eagain => true
+  | .wrote n => n < len
+  | _ => false
+
+/-- Write / Writev issue a direct write of `n` bytes and the kernel refuses (part of) it -/
+def directRefused (g : Cfg) (s : S) (n : Nat) (k : KAns) : Bool :=
+  !s.hung && !s.closed && n != 0 && !overflow g s n && s.wl.isEmpty && refused k n
+
+/-- some request of the direct loop of Sendfile (range of `rem` bytes) is refused -/
+def sendfileRefused : Nat → List KAns → Bool
+  | 0, _ => false
+  | _ + 1, [] => true
+  | rem + 1, k :: ks =>
+    match k with
+    | .eagain => true
+    | .eintr => sendfileRefused (rem + 1) ks
+    | .fail => false
+    | .wrote n0 =>
+      let cnt := min maxSendfile (rem + 1)
+      if n0 < cnt then true else sendfileRefused (rem + 1 - cnt) ks
+
+/-- some request of the flush loop over the queue `wl` is refused (mirrors the control flow of `flushLoop`
+    on sizes and answers only) -/
+def flushRefused : Nat → List Item → List KAns → Bool
+  | 0, _, _ => false
+  | _ + 1, [], _ => false
+  | fuel + 1, .buf d off :: tl, ks =>
+    let len := d.length - off
+    if len = 0 then flushRefused fuel (.buf d off :: tl) ks
+    else match ks with
+      | [] => true
+      | .eagain :: _ => true
+      | .eintr :: ks => flushRefused fuel (.buf d off :: tl) ks
+      | .fail :: _ => false
+      | .wrote n0 :: ks => if n0 < len then true else flushRefused fuel tl ks
+  | fuel + 1, .file off rem :: tl, ks =>
+    if rem = 0 then flushRefused fuel (.file off rem :: tl) ks
+    else match ks with
+      | [] => true
+      | .eagain :: _ => true
+      | .eintr :: ks => flushRefused fuel (.file off rem :: tl) ks
+      | .fail :: _ => false
+      | .wrote n0 :: ks => if n0 < rem then true else flushRefused fuel tl ks
+
+/-- update of the two ghosts -/
+def ghost (s : S) (edge early : Bool) : S := { s with edgeDue := edge, early := early }
+
+/-- a call on a conn whose async connect is in progress and whose connected callback has not started -/
+def isEarly (s : S) : Bool := s.connecting && !s.connEv
+
+def writeOp (g : Cfg) (s : S) (b : Bytes) (ks : List KAns) : S × Ret :=
+  let r := write g s b (directAns ks)
+  (ghost r.1 (s.edgeDue || directRefused g s b.length (directAns ks)) (s.early || isEarly s), r.2)
+
+def writevOp (g : Cfg) (s : S) (bs : List Bytes) (ks : List KAns) : S × Ret :=
+  let r := writev g s bs (directAns ks)
+  (ghost r.1 (s.edgeDue || directRefused g s (total bs) (directAns ks)) (s.early || isEarly s), r.2)
+
+def sendfileOp (g : Cfg) (s : S) (off len : Nat) (ks : List KAns) : S × Ret :=
+  let r := sendfile g s off len ks
+  (ghost r.1 (s.edgeDue || (!s.hung && !s.closed && s.wl.isEmpty && sendfileRefused (sendRange g off len) ks))
+    (s.early || isEarly s), r.2)
+
+/-- EPOLL_CTL_ADD reports the current readiness -/
+def registerOp (g : Cfg) (s : S) : S :=
+  ghost (register g s) (s.edgeDue || (!s.hung && !s.reg && !s.closed)) s.early
+
+def registerDialOp (g : Cfg) (s : S) : S :=
+  ghost (registerDial g s) (s.edgeDue || (!s.hung && !s.reg && !s.closed))
+    (s.early || (!s.hung && !s.reg && !s.closed && !s.wl.isEmpty))
+
+/-- the parts of a requested event that are delivered (ET: EPOLLOUT only when a report is due) -/
+def evDeliv (g : Cfg) (s : S) (out inn err : Bool) : Bool × Bool × Bool :=
+  deliverable s (out && (g.mode != .et || s.edgeDue)) inn err
+
+/-- ET reports EPOLLOUT only when a report is due and consumes it; the flush it triggers may earn the next one -/
+def evTakeOp (g : Cfg) (s : S) (out inn err : Bool) (ks : List KAns) : S :=
+  let out := out && (g.mode != .et || s.edgeDue)
+  let d := deliverable s out inn err
+  let t := evTake g s out inn err ks
+  ghost t ((if d.1 && g.mode == .et then false else s.edgeDue) ||
+      (d.1 && !s.connecting && flushRefused (ks.length + 1) s.wl ks)) s.early
+
 inductive Op
-  | write (b : Bytes) (k : KAns)
-  | writev (bs : List Bytes) (k : KAns)
+  | write (b : Bytes) (ks : List KAns)
+  | writev (bs : List Bytes) (ks : List KAns)
   | sendfile (off len : Nat) (ks : List KAns)
   | register
   | registerDial
   | evTake (out inn err : Bool) (ks : List KAns)
   | evEnd
-  | close
+  | flipClosed
+  | teardown
+  | setWriteDeadline (zero : Bool)
+  | timerExpire
+  | timerFire
 
 def step (g : Cfg) (s : S) : Op → S
-  | .write b k => (write g s b k).1
-  | .writev bs k => (writev g s bs k).1
-  | .sendfile off len ks => (sendfile g s off len ks).1
-  | .register => register g s
-  | .registerDial => registerDial g s
-  | .evTake o i e ks => evTake g s o i e ks
+  | .write b ks => (writeOp g s b ks).1
+  | .writev bs ks => (writevOp g s bs ks).1
+  | .sendfile off len ks => (sendfileOp g s off len ks).1
+  | .register => registerOp g s
+  | .registerDial => registerDialOp g s
+  | .evTake o i e ks => evTakeOp g s o i e ks
   | .evEnd => evEnd g s
-  | .close => close s
+  | .flipClosed => flipClosed s
+  | .teardown => teardown s
+  | .setWriteDeadline z => setWriteDeadline s z
+  | .timerExpire => timerExpire s
+  | .timerFire => timerFire s
 
 def run (g : Cfg) (s : S) (ops : List Op) : S := ops.foldl (step g) s
 
